@@ -1,0 +1,6 @@
+//go:build verif
+
+package gmars
+
+// the pass cap CompileWarrior applies (kept in step by the harness correspondence)
+const verifMaxForPasses = 12
